@@ -71,7 +71,7 @@ PROPERTIES = {
         'explanation': 'per-bunch functional postconditions (ghost cell n,x,y) and frames of every transport map',
     },
     'C15': {
-        'units': [sm.KickMapApplyTo, sm.FokkerPlanckApplyTo, sm.SourceMapApplyToAll, sm.UpdateSM, sm.CalcCoefficiants, io.HDF5AppendTracks, mainspec.MainTrackingFile, mainloop.MainLoop, mainspec.MapDispatch, io.ProgramOptionsGetters, io.ProgramOptionsPrecedence],
+        'units': [sm.KickMapApplyTo, sm.FokkerPlanckApplyTo, sm.SourceMapApplyToAll, sm.UpdateSM, sm.CalcCoefficiants, io.HDF5AppendTracks, mainspec.MainTrackingFile, mainloop.MainLoop, mainspec.MapDispatch, io.ProgramOptionsGetters, io.ProgramOptionsPrecedence, dynrf.DynApply, dynrf.DynCalcKick],
         'leaves': [leaf.FPApplyToLeaf, leaf.KickApplyToLeaf, leaf.PSxLeaf, leaf.PSyLeaf],
         'lemmas': [sm.lemmas_weights],
         'main_scenarios': ['tracking'],
